@@ -39,11 +39,14 @@ import (
 //
 // Part 2 (chain time): exhaustive grid of chain parameters for the conversion identities.
 
+// c03Epoch0 is the epoch in which vouch starts: 2, except in the genesis units, whose body sets it to 0 and
+// whose check restores it (units of one worker process run one after the other).
+var c03Epoch0 = 2
+
 const (
 	c03SPE     = 4
 	c03SlotDur = 12 * time.Second
 	c03Delay   = 4 * time.Second // attestation delay
-	c03Epoch0  = 2               // the epoch in which vouch starts
 )
 
 type c03Duty struct {
@@ -65,6 +68,14 @@ func c03AttTable(kind string, epoch phase0.Epoch) []c03Duty {
 		return []c03Duty{{f, 1}, {f + 1, 2}, {f + 1, 3}, {f + c03SPE + 2, 3}, {f - 1, 2}, {f + c03SPE, 2}}
 	case "E": // a duty in every slot
 		return []c03Duty{{f, 1}, {f + 1, 2}, {f + 2, 3}, {f + 3, 1}}
+	case "G": // no duty at all
+		return nil
+	case "H": // a duty in the third and one in the fourth slot of the epoch
+		return []c03Duty{{f + 2, 1}, {f + 3, 2}}
+	case "I": // two duties in the third slot, one in the fourth
+		return []c03Duty{{f + 2, 1}, {f + 2, 3}, {f + 3, 2}}
+	case "F": // as E with validators 2 and 3 swapped (same number of validators per slot)
+		return []c03Duty{{f, 1}, {f + 1, 3}, {f + 2, 2}, {f + 3, 1}}
 	}
 	return nil
 }
@@ -110,6 +121,7 @@ type c03World struct {
 	reorgAt   int64 // instant of the first event announcing changed roots (-1: none)
 	done      bool
 	jobsAtEnd []string
+	reorgs    []c03Reorg          // head events that announced changed dependent roots
 	attestDur int64               // how long the attester stand-in takes (0: returns at once)
 	inflight  map[phase0.Slot]int // attestations being carried out by the stand-in
 }
@@ -175,11 +187,20 @@ func (w *c03World) Propose(_ context.Context, duty *beaconblockproposer.Duty) {
 
 // virtual instant of the start of a slot
 func (w *c03World) slotStart(s phase0.Slot) int64 {
-	return int64(uint64(s)-c03Epoch0*c03SPE)*int64(c03SlotDur) - w.startAt
+	return int64(uint64(s)-uint64(c03Epoch0)*c03SPE)*int64(c03SlotDur) - w.startAt
 }
 
 func (w *c03World) slotAt(t int64) phase0.Slot {
-	return phase0.Slot(c03Epoch0*c03SPE + uint64((t+w.startAt)/int64(c03SlotDur)))
+	return phase0.Slot(uint64(c03Epoch0)*c03SPE + uint64((t+w.startAt)/int64(c03SlotDur)))
+}
+
+// c03Reorg is a head event announcing that duty-dependent roots changed.
+type c03Reorg struct {
+	at       int64
+	epoch    phase0.Epoch
+	crossing bool // first event of a new epoch: the controller can only compare the previous root
+	prev     bool
+	cur      bool
 }
 
 type c03Event struct {
@@ -190,6 +211,10 @@ type c03Event struct {
 
 func c03Units(tier string) []hx.Unit {
 	starts := []int64{0, int64(6 * time.Second), int64(c03SlotDur) + int64(time.Second), 3*int64(c03SlotDur) + int64(6*time.Second)}
+	if tier == "thorough" {
+		// also: the last second of a slot, the last second of the epoch
+		starts = append(starts, 2*int64(c03SlotDur)+int64(11*time.Second), 4*int64(c03SlotDur)-int64(time.Second))
+	}
 	attPairs := [][2]string{{"A", "A"}, {"A", "B"}, {"A", "C"}, {"D", "B"}, {"E", "C"}, {"B", "A"}}
 	propPairs := [][2]string{{"A", "A"}, {"A", "B"}, {"A", "C"}, {"D", "B"}}
 	var units []hx.Unit
@@ -200,12 +225,43 @@ func c03Units(tier string) []hx.Unit {
 				w := &c03World{}
 				u := hx.Unit{Name: fmt.Sprintf("C03/controller/start%d/att%s%s/prop%s%s", si, ap[0], ap[1], pp[0], pp[1]), Cfg: mc.Config{Deviation: true, Horizon: int64(40 * c03SlotDur)}}
 				u.Bound = 0
-				if tier == "thorough" {
-					u.Bound = 1
-				}
-				u.Body = func() { c03Body(w, st, ap, pp, tier) }
+				u.Body = func() { c03Body(w, st, ap, pp, false) }
 				u.Check = func(r *mc.Result) mc.Verdict { return c03Check(w, r) }
 				units = append(units, u)
+			}
+		}
+	}
+	// genesis: the same from the first epoch of a chain (unsigned epoch arithmetic: epoch-1, epoch-2 wrap)
+	for si, st := range starts[:3] {
+		for _, pr := range [][2][2]string{{{"A", "B"}, {"A", "B"}}, {{"E", "C"}, {"A", "C"}}} {
+			st, ap, pp := st, pr[0], pr[1]
+			w := &c03World{}
+			u := hx.Unit{Name: fmt.Sprintf("C03/controller/genesis/start%d/att%s%s/prop%s%s", si, ap[0], ap[1], pp[0], pp[1]), Cfg: mc.Config{Deviation: true, Horizon: int64(40 * c03SlotDur)}}
+			u.Body = func() {
+				c03Epoch0 = 0
+				c03Body(w, st, ap, pp, false)
+			}
+			u.Check = func(r *mc.Result) mc.Verdict {
+				v := c03Check(w, r)
+				c03Epoch0 = 2
+				return v
+			}
+			units = append(units, u)
+		}
+	}
+	if tier == "thorough" {
+		// one deviation from the default schedule during start-up and during the handling of one event that
+		// announces changed roots (see c03Body)
+		for si, st := range starts[:4] {
+			for _, ap := range attPairs {
+				for _, pp := range propPairs {
+					st, ap, pp := st, ap, pp
+					w := &c03World{}
+					u := hx.Unit{Name: fmt.Sprintf("C03/controller-1dev/start%d/att%s%s/prop%s%s", si, ap[0], ap[1], pp[0], pp[1]), Cfg: mc.Config{Deviation: true, Horizon: int64(40 * c03SlotDur)}, Bound: 1}
+					u.Body = func() { c03Body(w, st, ap, pp, true) }
+					u.Check = func(r *mc.Result) mc.Verdict { return c03Check(w, r) }
+					units = append(units, u)
+				}
 			}
 		}
 	}
@@ -232,7 +288,7 @@ func c03Units(tier string) []hx.Unit {
 	return units
 }
 
-func c03Body(w *c03World, startAt int64, ap, pp [2]string, tier string) {
+func c03Body(w *c03World, startAt int64, ap, pp [2]string, windowed bool) {
 	*w = c03World{attKinds: ap, propKinds: pp, startAt: startAt, reorgAt: -1}
 	ctx, cancel := mcontext.WithCancel(context.Background())
 	defer cancel()
@@ -279,14 +335,37 @@ func c03Body(w *c03World, startAt int64, ap, pp [2]string, tier string) {
 	}
 	mc.Sleep(int64(500 * time.Millisecond))
 	deliver("baseline", 0x10, 0x20)
+	// The thorough tier's schedule bound (one deviation) applies to the start-up above and to the instants at
+	// which a head event is handled; in between the default schedule is followed (three epochs of controller
+	// activity offer thousands of scheduling points, which no bound above zero can cover)
+	if windowed {
+		mc.Sleep(int64(time.Millisecond))
+		mc.SetDeviations(false)
+	}
 	prev, cur := byte(0x10), byte(0x20)
 	nEvents := 1 + mc.Choose(2)
+	if windowed {
+		nEvents = 1
+	}
 	lastSlotOff := int(w.slotAt(mc.Now())) - c03Epoch0*c03SPE
 	for i := 0; i < nEvents; i++ {
 		// the event's slot: the current slot or one of the next three; seconds into the slot: before or after the attestation time
-		slotOff := lastSlotOff + mc.Choose(4)
-		secs := []int64{1, 6}[mc.Choose(2)]
-		kind := []string{"same", "prev", "cur"}[mc.Choose(3)]
+		var slotOff int
+		var secs int64
+		var kind string
+		if windowed {
+			// one event announcing changed roots, in the next slot, before or after the attestation time
+			slotOff, secs, kind = lastSlotOff+1, []int64{1, 6}[mc.Choose(2)], []string{"prev", "cur", "both"}[mc.Choose(3)]
+		} else {
+			slotOff = lastSlotOff + mc.Choose(4)
+			secs = []int64{1, 6}[mc.Choose(2)]
+			kind = []string{"same", "prev", "cur", "both"}[mc.Choose(4)]
+		}
+		if c03Epoch0 == 0 {
+			// the duties of the first two epochs depend on the genesis state: a beacon node cannot announce
+			// other dependent roots there
+			kind = "same"
+		}
 		at := w.slotStart(phase0.Slot(c03Epoch0*c03SPE+slotOff)) + secs*int64(time.Second)
 		if at <= mc.Now() {
 			slotOff++
@@ -304,11 +383,26 @@ func c03Body(w *c03World, startAt int64, ap, pp [2]string, tier string) {
 		case "cur":
 			cur += 0x40
 			w.version = 1
+		case "both": // a deep reorg: both dependent roots change in one event
+			prev += 0x40
+			cur += 0x40
+			w.version = 1
 		}
 		if kind != "same" && w.reorgAt < 0 {
 			w.reorgAt = mc.Now()
 		}
+		if kind != "same" {
+			w.reorgs = append(w.reorgs, c03Reorg{at: mc.Now(), epoch: phase0.Epoch(c03Epoch0 + slotOff/c03SPE), crossing: slotOff/c03SPE != lastSlotOff/c03SPE,
+				prev: kind == "prev" || kind == "both", cur: kind == "cur" || kind == "both"})
+		}
+		if windowed {
+			mc.SetDeviations(true)
+		}
 		deliver(kind, prev, cur)
+		if windowed {
+			mc.Sleep(int64(time.Millisecond))
+			mc.SetDeviations(false)
+		}
 		lastSlotOff = slotOff
 	}
 	mc.Sleep(w.slotStart(phase0.Slot((c03Epoch0+3)*c03SPE)) + int64(time.Second) - mc.Now())
@@ -433,6 +527,32 @@ func c03Check(w *c03World, r *mc.Result) mc.Verdict {
 			}
 		}
 	}
+	// "the duties it then obtains": a head event that shows changed dependent roots must make vouch ask the
+	// beacon node again for the duties that depend on them — the previous root: this epoch's attesters; the
+	// current root: this epoch's proposers and the next epoch's attesters (the first event of a new epoch can
+	// only be compared through the previous root).  Without that clause the reference, which follows the
+	// beacon node's answers, would accept jobs of the abandoned chain.
+	asked := func(fs []c03Fetch, e phase0.Epoch, from int64) bool {
+		for _, f := range fs {
+			if f.epoch == e && f.at >= from {
+				return true
+			}
+		}
+		return false
+	}
+	for _, ro := range w.reorgs {
+		if ro.prev && !asked(w.attF, ro.epoch, ro.at) {
+			return fail("attest/duties-not-obtained-again", fmt.Sprintf("the head event at %+.0fs announced a changed previous dependent root but the attester duties of epoch %d were not obtained again", float64(ro.at)/1e9, ro.epoch))
+		}
+		if ro.cur && !ro.crossing {
+			if !asked(w.propF, ro.epoch, ro.at) {
+				return fail("propose/duties-not-obtained-again", fmt.Sprintf("the head event at %+.0fs announced a changed current dependent root but the proposer duties of epoch %d were not obtained again", float64(ro.at)/1e9, ro.epoch))
+			}
+			if !asked(w.attF, ro.epoch+1, ro.at) {
+				return fail("attest/duties-not-obtained-again", fmt.Sprintf("the head event at %+.0fs announced a changed current dependent root but the attester duties of epoch %d were not obtained (again) afterwards", float64(ro.at)/1e9, ro.epoch+1))
+			}
+		}
+	}
 	return v
 }
 
@@ -531,7 +651,7 @@ func init() {
 	hx.Register(&hx.Prop{
 		ID:    "C03",
 		Title: "Every duty is scheduled once, for the right time, across restarts and reorgs",
-		Rule: "controller part: real controller + real scheduler + real chain time (4 slots per epoch) started at 4 instants of an epoch (epoch start, mid-slot, just inside the second slot, last slot) x 6 attester and 4 proposer duty-table pairs (version before / after a reorg: same, moved, dropped, with out-of-epoch duties, dense) x head-event scripts (baseline + 1..2 events, each in one of the next 4 slots, 1 s or 6 s into the slot, roots same / previous changed / current changed), run for three epochs; deviation-bounded schedules (quick 0, thorough 1); the oracle is computed from the log of the beacon node's answers: per slot at most one Attest / Propose, exactly one with exactly the obtained validators at slot start + delay when the slot was still in the future, none for withdrawn or out-of-epoch duties, nothing for the slot in progress at start-up; " +
+		Rule: "controller part: real controller + real scheduler + real chain time (4 slots per epoch) started at 4 instants of an epoch (epoch start, mid-slot, just inside the second slot, last slot) x 6 attester and 4 proposer duty-table pairs (version before / after a reorg: same, moved, dropped, with out-of-epoch duties, dense) x head-event scripts (baseline + 1..2 events, each in one of the next 4 slots, 1 s or 6 s into the slot, roots same / previous changed / current changed / both changed), run for three epochs (from epoch 2, and for two table pairs also from epoch 0) on the default schedule (simultaneous timers and events in canonical order); thorough: two further start instants (last second of a slot, last second of the epoch), and every start x table pair once more with a single event announcing changed roots in the next slot, under every schedule with one deviation during start-up and during the handling of that event (mc.SetDeviations confines the bound to those instants: three epochs of controller activity offer thousands of scheduling points); the oracle is computed from the log of the beacon node's answers: per slot at most one Attest / Propose, exactly one with exactly the obtained validators at slot start + delay when the slot was still in the future, none for withdrawn or out-of-epoch duties, nothing for the slot in progress at start-up; after an event announcing a changed previous (current) dependent root the attester duties of the epoch (the proposer duties of the epoch and the attester duties of the next) are obtained again; " +
 			"chain-time part: genesis {now, 1 s ago, 1000 h ago, in 30 s} x slot duration {1,2,6,12 s} x slots per epoch {1,2,4,32} x 40 (thorough 130) slots x 4 instants per slot for the conversion identities; sync part: the sync-period window units of C15 (start instants x period length x fork epoch x membership); non-trivial = a reorg happened or vouch started inside an epoch",
 		Assumptions: []string{
 			"vouch keeps no persistent state, so a restart is a start instant",
